@@ -347,6 +347,15 @@ package zygo
 //@ |  && hash.NumKeys - old(hash.NumKeys) == bucketLen(hash, hashOf(key)) - old(bucketLen(hash, hashOf(key)))
 //@ C14 ensures removed: r0 == nil && !old(absent(hash, key)) ==> hash.NumKeys == old(hash.NumKeys) - 1
 //@ C14 ensures order-shrinks: r0 == nil && !old(absent(hash, key)) && old(exists(j, 0 <= j && j < len(hash.KeyOrder) && keq(hash.KeyOrder[j], key))) ==> len(hash.KeyOrder) == old(len(hash.KeyOrder)) - 1
-//@ C14 ensures order-bounded: len(hash.KeyOrder) <= old(len(hash.KeyOrder)) && len(hash.KeyOrder) >= old(len(hash.KeyOrder)) - 1 && (hash.NumKeys == old(hash.NumKeys) ==> hash.KeyOrder == old(hash.KeyOrder) && sameOrder(hash))
+//@ C14 ensures order-bounded: len(hash.KeyOrder) <= old(len(hash.KeyOrder)) && len(hash.KeyOrder) >= old(len(hash.KeyOrder)) - 1
+//@ C14 ensures order-kept: hash.NumKeys == old(hash.NumKeys) ==> hash.KeyOrder == old(hash.KeyOrder) && sameOrder(hash)
 //@ C14 ensures other-buckets: hash.Map == old(hash.Map) && forall(b, int, b != hashOf(key) ==> has(hash.Map, b) == old(has(hash.Map, b)) && hash.Map[b] == old(hash.Map[b]))
 //@ C14 loop 0 invariant -1 <= rangeindex && rangeindex < len(arr) && forall(i, 0 <= i && i <= rangeindex ==> !keq(arr[i].Head, key))
+
+//@ func (*SexpHash).removeFromKeyOrder
+//@ requires hash != nil
+//@ C14 modifies hash.KeyOrder, elems(hash.KeyOrder)
+//@ C14 ensures bounded: len(hash.KeyOrder) <= old(len(hash.KeyOrder)) && len(hash.KeyOrder) >= old(len(hash.KeyOrder)) - 1
+//@ C14 ensures shrinks: old(exists(j, 0 <= j && j < len(hash.KeyOrder) && keq(hash.KeyOrder[j], key))) ==> len(hash.KeyOrder) == old(len(hash.KeyOrder)) - 1
+//@ C14 ensures not-listed: old(forall(j, 0 <= j && j < len(hash.KeyOrder) ==> !keq(hash.KeyOrder[j], key))) ==> hash.KeyOrder == old(hash.KeyOrder) && sameOrder(hash)
+//@ C14 loop 0 invariant -1 <= rangeindex && rangeindex < old(len(hash.KeyOrder)) && hash.KeyOrder == old(hash.KeyOrder) && sameOrder(hash) && forall(j, 0 <= j && j <= rangeindex ==> !keq(old(hash.KeyOrder[j]), key))
